@@ -372,6 +372,7 @@ class Engine:
         self._ret = {}
         self._small = {}
         self._inlining = set()
+        self._cuts = 0
         global CURRENT
         CURRENT = self
 
@@ -488,9 +489,12 @@ class Engine:
         mkey = (body.key, l, bb if multi else -1, idx if multi else -1)
         hit = self._memo.get(mkey)
         if hit is not None:
+            if hit.tag == 'opaque' and hit[1].startswith('cycle:'):
+                self._cuts += 1
             return hit
         if depth > self.maxdepth:
             return T('opaque', 'deep')
+        cuts0 = self._cuts
         rds = ix.reaching_defs(l, bb, idx)
         if not rds:
             res = T('opaque', 'undef:%s:_%d' % (body.key, l))
@@ -516,7 +520,11 @@ class Engine:
         res = mk_phi(ts)
         self._memo[mkey] = res      # while the events are evaluated, a re-entrant read sees the un-mutated value
         res = self._with_events(body, bb, idx, l, res, depth)
-        self._memo[mkey] = res
+        if self._cuts != cuts0 and depth > 0:
+            # the value was computed while an enclosing evaluation was cut: do not cache the truncated form
+            del self._memo[mkey]
+        else:
+            self._memo[mkey] = res
         return res
 
     def _with_events(self, body, bb, idx, l, base, depth):
@@ -538,8 +546,12 @@ class Engine:
         if hit is not None:
             return T('mut', base, hit)
         self._memo[ekey] = ()           # cut self-reference (x.push(x.len()))
+        cuts0 = self._cuts
         ets = tuple(self.event_term(body, e, depth + 1) for e in rel)
-        self._memo[ekey] = ets
+        if self._cuts != cuts0 and depth > 0:
+            del self._memo[ekey]
+        else:
+            self._memo[ekey] = ets
         return T('mut', base, ets)
 
     def event_term(self, body, e, depth=0):
